@@ -9,7 +9,7 @@ from vrun import U
 
 UNITS = []
 _off = set(x.strip() for x in os.environ.get('C14_NO_KNOWN', '').split(',') if x.strip())
-KNOWN = ''.join('#define KNOWN_F_C14_%s 1\n' % k for k in ('OVERREAD', 'CR_LOST', 'APPEND_FAIL') if k not in _off)
+KNOWN = ''.join('#define KNOWN_F_C14_%s 1\n' % k for k in ('APPEND_FAIL',) if k not in _off)   # OVERREAD and CR_LOST are fixed in /repo (d005a2c, 81e7930): no longer carved out
 REPO = os.environ.get('VERIF_REPO', '/repo')
 
 
